@@ -331,6 +331,7 @@ def run(chk):
     hunt3_rules(chk, repo)
     hunt4_rules(chk, repo)
     hunt5_rules(chk, repo)
+    round7_rules(chk, repo)
     from rules import C19 as _C19
 
     _C19.textsize(chk, repo, "C04.length")
@@ -351,6 +352,10 @@ def bodiless(chk, repo, rule="C04.bodiless"):
         for m in cls.methods.values():
             for c in prog.calls_in(m.node):
                 f = norm.raw(c.func)
+                # (round 7) the body may be held in a local: `body = self._body ... await body.write(self._payload_writer)`
+                if isinstance(c.func, ast.Attribute) and isinstance(c.func.value, ast.Name) and c.func.attr == "write" and any(
+                        v is not None and norm.raw(v) == "self._body" for _d, v in norm.fn_defs(m.node).defs.get(c.func.value.id, [])):
+                    f = "self._body.write"
                 if f not in ("self._payload_writer.write", "self._payload_writer.write_eof", "self._body.write", "super().write_eof"):
                     continue
                 data = [a for a in c.args if not (isinstance(a, ast.Constant) and not a.value)]
@@ -444,6 +449,55 @@ def ioloop(chk, repo, rule="C04.ioloop"):
                 else:
                     chk.ok(rule, x, f"{cls.name}.write_with_length: the read loop is left early only when the known size was written or the declared length is used up ({'; '.join(atoms)[:120]})")
     chk.expect_count(rule, n, 1, "early exits of file read loops in write_with_length implementations")
+
+
+def round7_rules(chk, repo):
+    """Rule written after seeding round 7 (seed C04-7): the decision that only the head goes out is taken on the body that would be sent.
+    Response._do_start_compression() codes the whole body into self._compressed_body and stamps Content-Encoding and the length of the coded
+    body; an empty (b"", "") body codes to 8 or 20 bytes.  A shortcut of write_eof() that looks at the uncoded body sends a head that promises
+    bytes which never follow - the client hangs or takes the first bytes of the next response for them."""
+    we = repo.func(WRESP, "Response.write_eof")
+    g = cfg_of(we.node)
+    heads = [n for n in g.nodes if n.in_finally_copy is None and n.kind == "stmt" and isinstance(getattr(n, "ast", None), ast.AST) and any(
+        norm.raw(c.func) == "super().write_eof" and not c.args for c in K.node_calls(n))]
+    dsc = repo.func(WRESP, "Response._do_start_compression")
+    codes = any(isinstance(a, ast.Assign) and norm.raw(a.targets[0]) == "self._compressed_body" for a in ast.walk(dsc.node))
+    if not codes:
+        chk.ok("C04.coded.sent", we, "Response does not keep a whole-body coding")
+        return
+    if not heads:
+        chk.analysis_error("C04.coded.sent: no head-only `await super().write_eof()` found in Response.write_eof")
+        return
+    defs = norm.fn_defs(we.node)
+    # head-only: nothing of the body was handed to the writer on the way (the write_eof() behind a payload write only finishes the message)
+    wrote = [n for n in g.nodes if n.kind == "stmt" and isinstance(getattr(n, "ast", None), ast.AST) and any(isinstance(c.func, ast.Attribute) and c.func.attr == "write" and c.args and "_payload_writer" in norm.raw(c.args[0]) for c in K.node_calls(n))]
+    heads = [h for h in heads if g.find_path([g.entry], lambda n, h=h: n is h, lambda n: n in wrote, EXPLICIT) is not None]
+    bad = None
+    for h in heads:
+        lits = [l for cl_ in PC.pc(h.ast, raw=True) for l in cl_]
+        at = h.ast.lineno
+
+        def vals(nm):
+            # definitions in front of the shortcut (what the tested name can hold there)
+            return [v for d, v in defs.defs.get(nm, []) if v is not None and getattr(d, "lineno", 0) < at]
+        # literals that speak about the body: the tested value has to be the coded body whenever there is one
+        for l in lits:
+            names = set()
+            try:
+                names = {x.id for x in ast.walk(ast.parse(l.text, mode="eval")) if isinstance(x, ast.Name)}
+            except SyntaxError:
+                pass
+            about_body = "self._body" in l.text or any(any("_body" in norm.raw(v) for v in vals(nm)) for nm in names)
+            if not about_body or "_must_be_empty_body" in l.text:
+                continue
+            sees_coded = "self._compressed_body" in l.text or any(any("_compressed_body" in norm.raw(v) for v in vals(nm)) for nm in names)
+            if not sees_coded:
+                bad = (h, l)
+    if bad is None:
+        chk.ok("C04.coded.sent", heads[0].ast, "Response.write_eof(): whether only the head goes out is decided on the coded body when there is one (it is never empty)")
+    else:
+        chk.violation("C04.coded.sent", bad[0].ast, K.short(bad[0].ast), "body = self._compressed_body if it is not None else self._body  before the head-only test",
+                      f"the head-only shortcut is taken under `{bad[1].text}`, a test of the uncoded body: `web.Response(body=b'')` (or text='') with enable_compression() and an Accept-Encoding that selects deflate is sent with `Content-Encoding: deflate`, `Content-Length: 8` and no body bytes - on a keep-alive connection the client reads the first 8 bytes of the next response (`HTTP/1.1`) as this body")
 
 
 def hunt5_rules(chk, repo):
